@@ -10,6 +10,7 @@ import (
 
 	"github.com/agnivade/levenshtein"
 	"github.com/smarthome-go/homescript/v3/homescript/errors"
+	"golang.org/x/text/unicode/norm"
 )
 
 type ValueString struct {
@@ -151,6 +152,8 @@ func (self ValueString) IntoIter() func() (Value, bool) {
 
 func NewValueString(inner string) *Value {
 	zero := 0
-	val := Value(ValueString{Inner: inner, currIterIdx: &zero})
+	// Strings are kept in normal form C, as in the value library of the VM: `"e\u0301".len()` is 1 on both.
+	normalized := norm.NFC.String(inner)
+	val := Value(ValueString{Inner: normalized, currIterIdx: &zero})
 	return &val
 }
